@@ -61,7 +61,7 @@ func H_Obj_Dual(p []int) {
 	A, B := vObj(ka, pa), vObj(kb, pb)
 	vAssert(A.Within(B) == B.Contains(A), "C09.within-is-contains-swapped")
 	vAssert(B.Within(A) == A.Contains(B), "C09.within-is-contains-swapped-2")
-	if ea := vEquiv(ka, pa); ea != nil {
+	if ea := vEquiv(ka, pa); ea != nil && ka != 4 {
 		vAssert(A.Contains(B) == ea.Contains(B), "C09.transparent-contains")
 		vAssert(A.Within(B) == ea.Within(B), "C09.transparent-within")
 		vAssert(A.Intersects(B) == ea.Intersects(B), "C09.transparent-intersects")
@@ -100,6 +100,16 @@ func H_Obj_Sem(p []int) {
 	}
 	if ab {
 		vAssert(A.Rect().IntersectsRect(B.Rect()), "C09.intersects-implies-rects-intersect")
+	}
+	if ka == 4 {
+		// Rect answers as the equivalent five-point polygon
+		base := []geometry.Point{{X: 0, Y: 0}, {X: 2, Y: 0}, {X: 0, Y: 2}}
+		ea := vEquiv(4, base)
+		vAssert(A.Contains(B) == ea.Contains(B), "C09.rect-transparent-contains")
+		vAssert(A.Within(B) == ea.Within(B), "C09.rect-transparent-within")
+		vAssert(A.Intersects(B) == ea.Intersects(B), "C09.rect-transparent-intersects")
+		vAssert(B.Contains(A) == B.Contains(ea), "C09.rect-transparent-arg-contains")
+		vAssert(B.Intersects(A) == B.Intersects(ea), "C09.rect-transparent-arg-intersects")
 	}
 	if !A.Empty() && A.Valid() {
 		vAssert(A.Contains(A), "C09.self-contains")
